@@ -98,6 +98,8 @@ fn entity(r: &mut Rd) -> EntitySpec {
         faults: vec![],
         tail: vec![],
         segments: 0,
+        counting_hint: false,
+        unfused_errors: false,
     }
 }
 
@@ -216,7 +218,8 @@ pub fn decode_stream(data: &[u8]) -> stream::SCase {
         };
         ops.push(match o % 16 {
             0..=3 => Op::Write(size(&mut r)),
-            4..=6 => Op::WriteAll(size(&mut r)),
+            4 | 5 => Op::WriteAll(size(&mut r)),
+            6 => Op::WriteV(size(&mut r), size(&mut r)),
             7 | 8 => Op::Flush,
             9 | 10 => Op::FlushThenDrain,
             11 => Op::PollUntilPending,
